@@ -3,6 +3,7 @@
 A property module (tools/props/cxx.py) defines run(ctx) and replay(ctx, path) and uses:
 
   ctx.gen(name, text)                 write lean/ScenicModel/Gen/<name>.lean (only if changed)
+  ctx.gen_restore(name)               on TemplateMismatch: put back the committed Gen/<name>.lean (never use a stale one)
   ctx.prove(theorems, gen_side=[..])  lake build ScenicModel.Props.<id> + axiom audit
   ctx.driver(lines)                   run the compiled Lean model driver on a list of lines
   ctx.fingerprint({name: (file, qualname)})   source fingerprints -> escalation
@@ -155,6 +156,24 @@ class Ctx:
             return False
         finally:
             lock.close()
+
+    def gen_restore(self, name):
+        """The translator could not extract data from the current source (template mismatch): put back the
+        committed Gen/<name>.lean (data of the pinned source) so that a stale file from an earlier run is never
+        used; the tie to the current source then rests on the correspondence check (escalated budget)."""
+        rel = f"lean/ScenicModel/Gen/{name}.lean"
+        p = subprocess.run(["git", "-C", ROOT, "show", f"HEAD:{rel}"], capture_output=True, text=True)
+        if p.returncode == 0:
+            lock = self._lock()
+            try:
+                path = os.path.join(ROOT, rel)
+                if not os.path.exists(path) or open(path).read() != p.stdout:
+                    with open(path, "w") as f:
+                        f.write(p.stdout)
+            finally:
+                lock.close()
+            return True
+        return False
 
     def lake(self, args, timeout=3000):
         lock = self._lock()
